@@ -5115,7 +5115,8 @@ impl<K: Introspect + Eq + Hash, V: Introspect, S: ::std::hash::BuildHasher> Intr
         }
     }
     fn introspect_len(&self) -> usize {
-        self.len()
+        // every entry contributes two children: its key and its value
+        self.len() * 2
     }
 }
 
@@ -5139,7 +5140,8 @@ impl<K: Introspect + Eq + Hash, V: Introspect, S: ::std::hash::BuildHasher> Intr
         }
     }
     default fn introspect_len(&self) -> usize {
-        self.len()
+        // every entry contributes two children: its key and its value
+        self.len() * 2
     }
 }
 
@@ -5223,7 +5225,8 @@ impl<K: Introspect, V: Introspect> Introspect for BTreeMap<K, V> {
         }
     }
     fn introspect_len(&self) -> usize {
-        self.len()
+        // every entry contributes two children: its key and its value
+        self.len() * 2
     }
 }
 
@@ -5434,7 +5437,8 @@ impl<K: Introspect + Eq + Hash, V: Introspect, S: ::std::hash::BuildHasher> Intr
     }
 
     fn introspect_len(&self) -> usize {
-        self.len()
+        // every entry contributes two children: its key and its value
+        self.len() * 2
     }
 }
 
@@ -5463,7 +5467,8 @@ impl<K: Introspect + Eq + Hash, V: Introspect, S: ::std::hash::BuildHasher> Intr
     }
 
     default fn introspect_len(&self) -> usize {
-        self.len()
+        // every entry contributes two children: its key and its value
+        self.len() * 2
     }
 }
 
